@@ -56,7 +56,16 @@ type Ctx struct {
 	exhaustive bool
 }
 
-func (c *Ctx) add(o Obligation) { c.obls = append(c.obls, o); c.instances[o.Rule]++ }
+func (c *Ctx) add(o Obligation) {
+	c.obls = append(c.obls, o)
+	c.instances[o.Rule]++
+	if listAll {
+		fmt.Fprintf(os.Stderr, "OBL %s %s [%v] %s | %s\n", o.Rule, o.Key, o.Verdict, o.Pos, o.Detail)
+	}
+}
+
+// listAll (VERIFSA_LIST=1): every obligation is printed to stderr as it is recorded - a development aid.
+var listAll = os.Getenv("VERIFSA_LIST") != ""
 
 // Fork returns an empty context over the same program: a rule set of another property can be evaluated in it
 // and selected obligations re-emitted under this property's rule names.
